@@ -244,16 +244,18 @@ class Traversal:
             return [p.then(Path(conds=[{"t": "break"}])) for p in sub]
         if k == "If":
             out = []
+            ct = self._with_aps(hir.split_cond(n["cond"], True), env)
+            cf = self._with_aps(hir.split_cond(n["cond"], False), env)
             for pc in self.paths(n["cond"], env, depth):
                 envt = dict(env)
                 self._bind_letconds(n["cond"], envt)
                 for pt in self.paths(n["then"], envt, depth):
-                    out.append(pc.then(Path(conds=hir.split_cond(n["cond"], True))).then(pt))
+                    out.append(pc.then(Path(conds=ct)).then(pt))
                 if "else" in n:
                     for pe in self.paths(n["else"], env, depth):
-                        out.append(pc.then(Path(conds=hir.split_cond(n["cond"], False))).then(pe))
+                        out.append(pc.then(Path(conds=cf)).then(pe))
                 else:
-                    out.append(pc.then(Path(conds=hir.split_cond(n["cond"], False))))
+                    out.append(pc.then(Path(conds=cf)))
             return out
         if k == "LetCond":
             return self.paths(n["init"], env, depth)
@@ -304,6 +306,33 @@ class Traversal:
         if len(out) > 4000:
             return [Path(unknown=["path explosion"])]
         return out
+
+    def _with_aps(self, conds, env):
+        out = []
+        for c in conds:
+            if c.get("t") == "pat" and c.get("scrut") is not None and "ap" not in c:
+                c = dict(c)
+                c["ap"] = self.access_path(c["scrut"], env)
+            out.append(c)
+        return out
+
+    @staticmethod
+    def feasible(path):
+        """False if the path requires one value to match and not to match the same variant."""
+        pos = set()
+        neg = set()
+        for c in path.conds:
+            if c.get("t") == "pat" and c.get("ap") is not None:
+                v = hir.pat_variant(c["pat"])
+                if isinstance(v, str) and v != "_":
+                    (pos if c["v"] else neg).add((c["ap"], v))
+        if pos & neg:
+            return False
+        # two different variants of the same place
+        byap = {}
+        for ap, v in pos:
+            byap.setdefault(ap, set()).add(v)
+        return all(len(vs) == 1 for vs in byap.values())
 
     def _bind_letconds(self, cond, env):
         for e in hir.walk_no_closure(cond):
